@@ -141,8 +141,19 @@ def lens_of(core, argt, args):
 def make_case(seed, depth, flavour="basic"):
     rng = random.Random(seed)
     G = Gen(rng)
-    for _ in range(20):
-        prog, argt, rett = G.gf(depth)
+    # flavour "root:<kind>": the targeted stream — the root of the program is the named combinator ("axis1": a vmap
+    # whose first argument is mapped along axis 1), so that the requests only a root accepts (IndexRequest on vmap / scan,
+    # index-changing updates of a switch) and every derived combinator are met in every run
+    root = flavour[5:] if flavour.startswith("root:") else None
+    for _ in range(80 if root else 20):
+        if root == "axis1":
+            prog, argt, rett = G.vmap(max(depth, 2))
+            if not (prog[0] == "vmap" and prog[1] and prog[1][0] == 1):
+                continue
+        elif root:
+            prog, argt, rett = getattr(G, root)(max(depth, 1))
+        else:
+            prog, argt, rett = G.gf(depth)
         core = desugar(prog)
         try:
             lens = lens_of(core, argt, None)
@@ -168,6 +179,7 @@ def make_case(seed, depth, flavour="basic"):
         key = tuple(p)
         if key not in seen:
             seen.add(key); u2.append(p)
+    univ_full = len(u2) <= 40
     univ = u2[:40]
     ids = sorted({x for p in univ for (k, x) in p if k == "s"}) or [0]
     # junk addresses sit at *static* levels only (a static key where the program expects an index level is a
@@ -183,7 +195,8 @@ def make_case(seed, depth, flavour="basic"):
             break
     case = {"seed": seed, "prog": prog, "core": core, "argt": argt, "rett": rett, "args": args, "stages": stages,
             "univ": univ, "junk": junk, "ids": ids, "zero_len": any(l == 0 for l in lens), "lens": list(lens), "keyseed": rng.randint(0, 10 ** 6),
-            "sels": [gen_sel(rng, ids) for _ in range(3)], "rngseed": rng.randint(0, 10 ** 9), "flavour": flavour}
+            "sels": [gen_sel(rng, ids) for _ in range(3)], "rngseed": rng.randint(0, 10 ** 9), "flavour": flavour,
+            "univ_full": univ_full}      # False: observations look up only the first 40 addresses of the program
     return case
 
 
